@@ -248,6 +248,13 @@ def contract_stub(spec_getter):
             return s2, sets
         s2, sets = havoc_state()
         r = ex.fresh(s2, spec.returns, 'ret_' + spec.qualname.replace('.', '_')) if spec.returns else VNone
+        # an object-typed return value is allocated in s2: it must exist in the caller's state too
+        for a_, cell_ in s2.heap.items():
+            if isinstance(a_, int) and a_ not in st.heap:
+                st.heap[a_] = cell_
+        if s2.next_addr != st.next_addr and '__created__' in s2.heap:
+            st.heap['__created__'] = s2.heap['__created__']
+        st.next_addr = max(st.next_addr, s2.next_addr)
         c1 = Ctx(ex, st, s2, recv, result=r, args=args)
         c1.callee_view = True
         o = Out(ret=r, sets=sets, assume=_clauses_for_call_site([f for _l, f in spec.ensures] +
